@@ -573,9 +573,9 @@ fn parser_batch(inputs: &[Vec<u8>], optsel: u8) -> Vec<Result<u8, String>> {
     res
 }
 
-pub const HUGE: u64 = 1 << 27;
+pub const HUGE: u64 = 1 << 24;
 /// input class of the known finding "header-sized-allocation": the input contains a decimal
-/// number in [2^27, 2^64) (a representable element count far beyond the input size; counts are
+/// number in [2^24, 2^64) (a representable element count far beyond the input size; counts are
 /// declared in the header and, for AIGER justice properties, in the body)
 pub fn huge_count(d: &[u8]) -> bool {
     huge_count_at(d, HUGE)
